@@ -414,8 +414,8 @@ func c08AddRef(c *core.Ctx) {
 					c.Violate("misuse-unnoticed", "%s: Add(%d) with %d registered returned %d instead of panicking", desc, d, n, o.ret)
 					return
 				}
-				if !strings.HasPrefix(o.msg, "bigbuff: chancaster:") {
-					c.Violate("foreign-panic", "%s: panic value %q is not the package's own", desc, o.msg)
+				if isRuntimePanic(o.msg) {
+					c.Violate("foreign-panic", "%s: misuse surfaced as a Go runtime error (%q), not as a reported panic", desc, o.msg)
 				}
 				if unbalanced {
 					// one follow-up call of each kind, each on a fresh instance brought to the same state
@@ -440,8 +440,8 @@ func c08AddRef(c *core.Ctx) {
 						cases++
 						if !f.panicked {
 							c.Violate("followup-unnoticed", "%s: after the unbalanced Add(%d), %s returned %d instead of panicking", desc, d, kind, f.ret)
-						} else if !strings.HasPrefix(f.msg, "bigbuff: chancaster:") {
-							c.Violate("foreign-panic", "%s: follow-up %s panicked with %q", desc, kind, f.msg)
+						} else if isRuntimePanic(f.msg) {
+							c.Violate("foreign-panic", "%s: follow-up %s surfaced as a Go runtime error (%q)", desc, kind, f.msg)
 						}
 					}
 				}
@@ -560,12 +560,18 @@ func c08MisuseDuringSend(c *core.Ctx) {
 		if lr.pv == nil {
 			c.Violate("followup-unnoticed", "after the misuse, a later %s returned %d instead of panicking; %s", kind, lr.ret, desc)
 			return
-		} else if !strings.HasPrefix(fmt.Sprint(lr.pv), "bigbuff: chancaster:") {
-			c.Violate("foreign-panic", "later %s panicked with %v; %s", kind, lr.pv, desc)
+		} else if isRuntimePanic(fmt.Sprint(lr.pv)) {
+			c.Violate("foreign-panic", "later %s surfaced as a Go runtime error (%v); %s", kind, lr.pv, desc)
 		}
 		break // only the first later call is asserted (later ones can see a state walked back into range)
 	}
 	c.Op("misuse_sequence", 1)
 	c.Nontrivial()
 	c.Sig("misuse", R, later[0])
+}
+
+// isRuntimePanic: a panic raised by the Go runtime (nil dereference, index out of range, ...) rather than by the
+// library reporting misuse; the wording of the library's own panic messages is not asserted.
+func isRuntimePanic(msg string) bool {
+	return strings.HasPrefix(msg, "runtime error:") || strings.Contains(msg, "all goroutines are asleep")
 }
